@@ -468,7 +468,10 @@ def css3_function(f):
         else:
             oor |= any(not (0 <= v <= 100) for v in vals[:3])
             rgb = [clipq(v, 0, 100) * 255 / 100 for v in vals[:3]]
-            tol = Fraction(1)          # CSS3 does not say how a percentage is quantised: floor and round both accepted (< 1)
+            # CSS3 does not say how a percentage is quantised: floor and round both accepted.  Integer percentages:
+            # strictly less than 1 off (theorem rgb_pct_int_spec); fractional ones go through three binary64
+            # roundings before the truncation: 1 + 2^-51 * 255p/100 (theorem rgb_pct_float_spec), 1e-9 here
+            tol = Fraction(1) if all("." not in a for _, a in args[:3]) else Fraction(1) + Fraction(1, 10 ** 9)
         return rgb + [alpha], oor, tol
     h = ((vals[0] % 360) + 360) % 360 / 360
     sat, l = vals[1] / 100, vals[2] / 100
@@ -480,6 +483,24 @@ def css3_function(f):
     return rgb + [alpha], oor, Fraction(1, 2) + Fraction(1, 10 ** 9)
 
 
+HSL_DELTA = Fraction(1, 10 ** 9)      # stated bound on the binary64 stage of hsl() (theorem hsl_fn_spec's delta)
+
+
+def hsl_float_products(f):
+    """r*255, g*255, b*255 in binary64 exactly as ColorValue computes them (value.py:418-440 + colorsys)"""
+    import colorsys
+    name, args, _ = f
+
+    def stored(txt):
+        t = txt.rstrip("%")
+        return float(t) if "." in t else int(t)
+    h = stored(args[0][1]) / 360.0
+    sat = stored(args[1][1]) / 100.0
+    l = stored(args[2][1]) / 100.0
+    r, g, b = colorsys.hls_to_rgb(h, l, sat)
+    return [r * 255, g * 255, b * 255]
+
+
 def oracle_fn(f, impl):
     spec, oor, tol = css3_function(f)
     if "err" in impl:
@@ -489,7 +510,7 @@ def oracle_fn(f, impl):
     got = [frac_of(x) for x in impl["rgba"]]
     for i, (g, w) in enumerate(zip(got, spec)):
         t = tol if i < 3 else Fraction(1, 10 ** 9) + abs(w) * EPS53
-        bad = (abs(g - w) >= t) if (i < 3 and tol == 1) else (abs(g - w) > t)
+        bad = (abs(g - w) >= t) if (i < 3 and tol >= 1) else (abs(g - w) > t)
         if bad:
             comp = "red green blue alpha".split()[i]
             if oor:
@@ -688,6 +709,7 @@ def run(ctx):
     fns = [(f[0], [tuple(a) for a in f[1]], f[2]) for f in corpus.get("functions", [])] + gen_functions(ctx, thorough)
     fimpl = ctx.pool_map(impl_color, [fn_text(f) for f in fns], procs=6, chunksize=128)
     n_oor = 0
+    hsl_delta = [Fraction(0), None]
     if binary:
         lines = []
         for name, args, sep in fns:
@@ -704,6 +726,14 @@ def run(ctx):
             p = o.split("|")
             ex = p[0] == "1"
             want = [Fraction(bits(x.split()[0]), bits(x.split()[1])) for x in p[1:5]]
+            if not ex:
+                # the binary64 stage of hsl(): the same float operations as value.py / colorsys, compared exactly with
+                # the model's exact r*255 (the delta of theorem hsl_fn_spec)
+                xs = hsl_float_products(f)
+                for xf, w in zip(xs, want[:3]):
+                    dlt = abs(Fraction(xf) - w)
+                    if dlt > hsl_delta[0]:
+                        hsl_delta[0], hsl_delta[1] = dlt, fn_text(f)
             got = [frac_of(x) for x in i["rgba"]]
             for k, (g, w) in enumerate(zip(got, want)):
                 if ex or k == 3:
@@ -713,6 +743,11 @@ def run(ctx):
                 if not ok:
                     mism.append(("function", fn_text(f), "component %d: implementation %s model %s" % (k, float(g), float(w))))
                     break
+    stats["hsl_binary64_delta_max"] = float(hsl_delta[0])
+    stats["hsl_binary64_delta_case"] = hsl_delta[1]
+    if hsl_delta[0] > HSL_DELTA:
+        ctx.broken("correspondence", "hsl binary64 stage bound",
+                   "|binary64 r*255 - exact r*255| = %g > %g on %s" % (float(hsl_delta[0]), float(HSL_DELTA), hsl_delta[1]))
     for f, i in zip(fns, fimpl):
         if len({k for k, _ in f[1][:3]}) > 1 or (f[0].lower().startswith("hsl") and [k for k, _ in f[1][:3]] != ["N", "P", "P"]) \
                 or (len(f[1]) == 4 and f[1][3][0] != "N"):
@@ -817,9 +852,9 @@ def replay(ctx, path):
 
 TRUSTED = [
     "Coq 8.16.1 kernel and VM (vm_compute for the finite table comparison and the examples); no native_compute",
-    "Section hypotheses on dbl (binary64 round-to-nearest as a function Q -> Q): |dbl q - q| <= |q|*2^-53 + 2^-1075 below "
-    "10^308, sign preservation, compatibility with ==; validated on every number case by exact comparison of the "
-    "implementation's float (as_integer_ratio) with dbl_exec and with the bound itself",
+    "float() = dbl_exec (integer round-to-nearest-even on the reduced fraction): its properties (error bound, sign, ==, "
+    "exactness on representables) are PROVED (dbl_exec_is_binary64); that CPython's float() of a decimal string equals "
+    "dbl_exec is validated on every number case by exact comparison (as_integer_ratio), not proved",
     "'%f' % v modelled as exact round-half-even to 6 places (CPython's correctly rounded dtoa); str(int) as decimal printing",
     "translate/colors.py + translate/regexlib.py (CPython re._parser / ast)",
     "extraction (ExtrOcamlBasic only) + ocamlfind ocamlopt, ocaml/numbers_driver.ml",
@@ -833,7 +868,10 @@ ASSUME = [
     "Print Assumptions for every theorem of props/C17.v: see coverage.print_assumptions",
     "number theorems are about normalised token values (after Tokenizer/normalize); units are any string not starting "
     "with a digit or '.'",
-    "a percentage in rgb() may be quantised by floor or by rounding (CSS3 does not say; the pinned tests fix 50% -> 127)",
+    "a percentage in rgb() may be quantised by floor or by rounding (CSS3 does not say; the pinned tests fix 50% -> 127); "
+    "tolerance < 1 (integer percentages, rgb_pct_int_spec) / < 1 + 1e-9 (fractional, rgb_pct_float_spec)",
+    "hsl(): the binary64 stage of colorsys is not analysed in Coq; its distance from the exact value is measured on every "
+    "case (coverage.distribution.hsl_binary64_delta_max) and must stay below the stated delta 1e-9 of hsl_fn_spec",
     "a fraction whose magnitude reaches 2^1024 - 2^970 is rejected by the code as not well-formed (number_overflow_rejected); "
     "the round-trip theorems carry the magnitude guard |q| <= 10^300 (parse: 10^308) explicitly",
     "int()'s digit limit (4300 digits, rejected the same way) is not modelled: lexemes are shorter",
